@@ -147,6 +147,38 @@ def r10_2_loop_logs_reported(repo: Repo, rep: Report):
                         if kwarg(r, "allow_duplicate") is not None and fold_in(repo, "__main__", kwarg(r, "allow_duplicate")) is False:
                             ok = False
                 rep.check("R10.2", ok, m, st, f"__main__.{q}: {src(st)} -> warn_code(LOOP_BOUND, ...) if {var}.logs.bounded_loops", "this engine's loop log is never reported: a loop cut in it yields a clean result")
+                # the engine runs lazily (run / run_message are generators): the log is complete only after the last
+                # statement that consumes its states
+                gens = set()
+                consumers = []
+                def runs_engine(call):
+                    if dotted(call.func) in (f"{var}.run", f"{var}.run_message"):
+                        return True
+                    # a generator function of this module that is handed the engine (run_message(ctx, sevm, ..))
+                    if isinstance(call.func, ast.Name) and any(isinstance(a, ast.Name) and a.id == var for a in call.args):
+                        callee = m.defs.get(call.func.id)
+                        return callee is not None and any(isinstance(y, (ast.Yield, ast.YieldFrom)) for y in ast.walk(callee))
+                    return False
+
+                for x in body_walk(fn):
+                    if isinstance(x, ast.Assign) and isinstance(x.value, ast.Call) and runs_engine(x.value) and isinstance(x.targets[0], ast.Name):
+                        gens.add(x.targets[0].id)
+                for x in body_walk(fn):
+                    if not isinstance(x, ast.stmt) or isinstance(x, (ast.FunctionDef, ast.Try, ast.If, ast.With)):
+                        continue
+                    if isinstance(x, ast.Assign) and isinstance(x.value, ast.Call) and runs_engine(x.value):
+                        continue
+                    heads = [x.iter] if isinstance(x, (ast.For, ast.AsyncFor)) else ([x.test] if isinstance(x, ast.While) else [x])
+                    for h in heads:
+                        if any((isinstance(n, ast.Name) and n.id in gens and isinstance(n.ctx, ast.Load)) or (isinstance(n, ast.Call) and runs_engine(n)) for n in ast.walk(h)):
+                            consumers.append(x)
+                guarded = [r for r in reports if any(f"{a}.bounded_loops" in guard_set(m, r) for a in aliases)]
+                if consumers and guarded:
+                    last = max(getattr(x, "end_lineno", x.lineno) for x in consumers)
+                    late = all(r.lineno > last for r in guarded)
+                    rep.check("R10.2", late, m, guarded[0], f"__main__.{q}: the loop-log test follows the last consumer of {var}'s states (line {last})", "the loop log is read before the (lazy) engine has run: it is still empty, so the LOOP_BOUND warning can never fire")
+                elif not consumers:
+                    raise AnalysisError(f"R10.2: no consumer of {var}.run / run_message found in __main__.{q}")
     if n < 3:
         raise AnalysisError(f"R10.2: only {n} SEVM constructions found in __main__ (setUp, test, target call expected)")
     # an engine that is not bound to a name (constructed inline as an argument) has a log nobody can read afterwards
@@ -180,6 +212,26 @@ def r10_2_loop_logs_reported(repo: Repo, rep: Report):
         for c in ast.walk(mm.tree):
             if isinstance(c, ast.Call) and call_name(c) == "SEVM":
                 rep.bad("R10.2", mm, c, src(c), "engine constructed outside __main__: its loop log has no reporter")
+
+
+def r10_6_setup_paths(repo: Repo, rep: Report):
+    rep.rule("R10.6", "setUp: a path leaves the classification loop only through the error arm (warning unless plain revert) or as a candidate state; no silent skip")
+    m, fn = repo.fn("__main__.setup")
+    loops = [l for l in body_walk(fn) if isinstance(l, ast.For) and "setup_exs_all" in src(l.iter)]
+    if len(loops) != 1:
+        raise AnalysisError("setup: loop over setup_exs_all not found")
+    loop = loops[0]
+    exits = [n for n in body_walk(loop) if isinstance(n, (ast.Continue, ast.Break, ast.Return)) and m.enclosing_loop(n) is loop] if hasattr(m, "enclosing_loop") else [n for n in ast.walk(loop) if isinstance(n, (ast.Continue, ast.Break))]
+    for n in exits:
+        blk = m.parents[n]
+        before = [x for x in getattr(blk, "body", []) if getattr(x, "lineno", 0) < n.lineno]
+        reported = any(isinstance(c, ast.Call) and call_name(c) in ("warn_code", "warn", "error") for x in before for c in ast.walk(x))
+        rep.check("R10.6", reported, m, n, f"setup: `{type(n).__name__.lower()}` under {sorted(guard_set(m, n))[-2:]}", "a setUp path is dropped without a warning (only debug output): a path stopped by an unsupported feature in setUp disappears and the tests built on the remaining state pass cleanly")
+    # the error arm warns for everything but REVERT / INVALID
+    arms = [i for i in loop.body if isinstance(i, ast.If) and "output.error" in src(i.test)]
+    ok = len(arms) == 1 and any(isinstance(c, ast.Call) and call_name(c) == "warn_code" and c.args and src(c.args[0]) == "INTERNAL_ERROR" and "opcode not in [EVM.REVERT, EVM.INVALID]" in {g for g in guard_set(m, c)} for c in ast.walk(arms[0]))
+    rep.check("R10.6", ok, m, arms[0] if arms else loop, "error arm: warn_code(INTERNAL_ERROR, ..) unless the opcode is REVERT / INVALID", "a setUp path that ended in an error other than a plain revert must be reported")
+    rep.check("R10.6", bool(arms) and bool(arms[0].orelse) and "setup_exs_no_error.append" in src(arms[0].orelse[0] if len(arms[0].orelse) == 1 else ast.Module(body=arms[0].orelse, type_ignores=[])), m, arms[0] if arms else loop, "else arm: the path becomes a candidate setup state", "an error-free setUp path must be kept as a candidate")
 
 
 def r10_5_message_identity(repo: Repo, rep: Report):
@@ -259,4 +311,12 @@ def r10_4_cache_published_before_complete(repo: Repo, rep: Report):
     rep.check("R10.4", ok, mg, gf, "get_frontier returns the cached list when present", "frontier lookup changed")
 
 
-RULES = [r10_5_message_identity, r10_1_cut_report_pairing, r10_2_loop_logs_reported, r10_3_reports_not_deduplicated, r10_4_cache_published_before_complete]
+def r10_7_shared(repo: Repo, rep: Report):
+    """the --width cut is reported where the paths are counted: the generator of paths must reach that loop unsliced
+    (shared with C03 R03.4)"""
+    from hsa.rules.c03 import r03_4_verdict_domain
+
+    r03_4_verdict_domain(repo, rep)
+
+
+RULES = [r10_5_message_identity, r10_1_cut_report_pairing, r10_2_loop_logs_reported, r10_3_reports_not_deduplicated, r10_4_cache_published_before_complete, r10_6_setup_paths, r10_7_shared]
